@@ -122,11 +122,26 @@ func (t Table) DDL() []string {
 }
 
 func (t Table) Migrate(ctx context.Context, pg Conn) error {
-	for _, stmt := range t.DDL() {
+	// create the table, then add the columns an existing table lacks,
+	// and only then the indexes: they may name one of the new columns
+	ddl := t.DDL()
+	for _, stmt := range ddl[:min(1, len(ddl))] {
 		if _, err := pg.Exec(ctx, stmt); err != nil {
 			return fmt.Errorf("table %q stmt %q: %w", t.Name, stmt, err)
 		}
 	}
+	if err := t.addColumns(ctx, pg); err != nil {
+		return err
+	}
+	for _, stmt := range ddl[min(1, len(ddl)):] {
+		if _, err := pg.Exec(ctx, stmt); err != nil {
+			return fmt.Errorf("table %q stmt %q: %w", t.Name, stmt, err)
+		}
+	}
+	return nil
+}
+
+func (t Table) addColumns(ctx context.Context, pg Conn) error {
 	diff, err := Diff(ctx, pg, t.Name, t.Columns)
 	if err != nil {
 		return fmt.Errorf("getting diff for %s: %w", t.Name, err)
